@@ -58,3 +58,14 @@ Example ed_ex_b_run :
   ed_b_run (ed_of_pdu ed_ex_pdu) ed_ex_edits =
   Some (fst (ed_run ed_ex_pdu ed_ex_edits), ed_of_pdu (snd (ed_run ed_ex_pdu ed_ex_edits))).
 Proof. vm_compute. reflexivity. Qed.
+
+Theorem ed_ex_nonvacuous :
+  ed_pwf ed_ex_pdu /\ msg_wf (p_msg ed_ex_pdu) /\ m_code (p_msg ed_ex_pdu) <> 0 /\
+  Forall (ed_op_fine (m_code (p_msg ed_ex_pdu))) ed_ex_edits /\
+  fst (ed_run ed_ex_pdu ed_ex_edits) = [true; true; true; true; true; false] /\
+  m_opts (p_msg (snd (ed_run ed_ex_pdu ed_ex_edits))) = [(300, []); (2000, repeat 0 13)] /\
+  len (m_token (p_msg (snd (ed_run ed_ex_pdu ed_ex_edits)))) = 300.
+Proof.
+  split; [exact ed_ex_pwf|]. split; [exact ed_ex_msg_wf|]. split; [discriminate|].
+  split; [exact ed_ex_fine|]. rewrite ed_ex_run. repeat split.
+Qed.
